@@ -86,6 +86,10 @@ func (c *Change) MetaSection() string {
 func (c *Change) PatchText() string {
 	var sb strings.Builder
 	for _, cm := range c.Comments {
+		if cm == "" {
+			sb.WriteString("#\n")
+			continue
+		}
 		sb.WriteString("# " + cm + "\n")
 	}
 	if c.Name != "" {
